@@ -1039,4 +1039,145 @@ example : valsOk [.mk .function (S "f(") [.mk .leftParen (S "(") [], .mk .ident 
       .mk .rightParen (S ")") []], .mk .string (S "\"}\"") []])) [] = some [] := by decide
 
 
+/-! ## strings and urls -/
+
+/-- full statement: `removeMarkupNewlines` (the string branch of `minifyTokens`) turns every closed string lexeme
+    into a closed string lexeme with the same value.  False, see the counterexample. -/
+def css_string_closed_full : Prop :=
+  ∀ data : List Char, lexOk .string data = true →
+    lexOk .string (removeMarkupNewlines data) = true ∧ stringValue (removeMarkupNewlines data) = stringValue data
+
+/-- `"\31\<LF>2"` (the value `12`) becomes `"\312"` (U+0312): a hex escape that ends where the removed `\`+newline
+    began runs on into the next line (known finding K-C09-CSS-11, reproduced on the real code) -/
+theorem css_string_closed_counterexample : ¬ css_string_closed_full := by
+  intro h
+  have := (h (S "\"\\31\\\n2\"") (by decide)).2
+  revert this
+  decide
+
+/-- the guard: no `\`+newline anywhere (then nothing is removed) -/
+theorem css_string_closed_partial (data : List Char) (hl : lexOk .string data = true)
+    (hg : hasEscapedNewline ((data.take (data.length - 1)).drop 1) = false) :
+    lexOk .string (removeMarkupNewlines data) = true ∧ stringValue (removeMarkupNewlines data) = stringValue data := by
+  have : removeMarkupNewlines data = data := by
+    unfold removeMarkupNewlines
+    rw [hg]; rfl
+  rw [this]; exact ⟨hl, rfl⟩
+
+example : lexOk .string (S "\"a\\\"b\\41 c\"") = true ∧
+    hasEscapedNewline (((S "\"a\\\"b\\41 c\"").take ((S "\"a\\\"b\\41 c\"").length - 1)).drop 1) = false := by decide
+
+/-- what `css.IsURLUnquoted` (for bytes without backslash) guarantees about one code point -/
+theorem urlChar_facts (c : Char)
+    (h : (!(c == '"' || c == '\'' || c == '(' || c == ')' || c == '\\' || c == ' ' || decide (c.toNat ≤ 0x1F) ||
+      c.toNat == 0x7F)) = true) :
+    (c == ')') = false ∧ isWs c = false ∧ (c == '"' || c == '\'' || c == '(' || isNonPrintable c) = false ∧
+    (c == '\\') = false := by
+  simp only [Bool.not_eq_true', Bool.or_eq_false_iff, decide_eq_false_iff_not, beq_eq_false_iff_ne] at h
+  obtain ⟨⟨⟨⟨⟨⟨⟨h1, h2⟩, h3⟩, h4⟩, h5⟩, h6⟩, h7⟩, h8⟩ := h
+  have ne : ∀ d : Char, d.toNat ≤ 0x1F → c ≠ d := by
+    intro d hd hcd; subst hcd; exact h7 hd
+  refine ⟨by simpa using h4, ?_, ?_, by simpa using h5⟩
+  · simp only [isWs, Bool.or_eq_false_iff, beq_eq_false_iff_ne]
+    exact ⟨⟨⟨⟨h6, ne '\t' (by decide)⟩, ne '\n' (by decide)⟩, ne '\r' (by decide)⟩, ne '\x0c' (by decide)⟩
+  · simp only [Bool.or_eq_false_iff, beq_eq_false_iff_ne, isNonPrintable, Bool.and_eq_false_iff,
+      decide_eq_false_iff_not]
+    refine ⟨⟨⟨h1, h2⟩, h3⟩, ⟨⟨⟨by omega, by omega⟩, Or.inr (by omega)⟩, h8⟩⟩
+
+theorem urlLen_plain : ∀ (uri X : List Char) (n : Nat), isURLUnquoted uri = true → uri.length + 1 ≤ n →
+    urlLen n (uri ++ ')' :: X) = (uri.length + 1, true) := by
+  intro uri
+  induction uri with
+  | nil =>
+    intro X n _ hn
+    obtain ⟨n', rfl⟩ : ∃ n', n = n' + 1 := ⟨n - 1, by simp at hn; omega⟩
+    simp [urlLen]
+  | cons c u ih =>
+    intro X n h hn
+    obtain ⟨n', rfl⟩ : ∃ n', n = n' + 1 := ⟨n - 1, by simp at hn; omega⟩
+    simp only [isURLUnquoted, List.all_cons, Bool.and_eq_true] at h
+    obtain ⟨f1, f2, f3, f4⟩ := urlChar_facts c h.1
+    simp only [List.cons_append, urlLen, f1, f2, f3, f4, Bool.false_eq_true, if_false]
+    rw [ih X n' h.2 (by simp only [List.length_cons] at hn; omega)]
+    simp only [List.length_cons]
+    apply Prod.ext <;> simp <;> omega
+
+theorem urlBody_plain : ∀ (uri X : List Char) (n : Nat), isURLUnquoted uri = true → uri.length + 1 ≤ n →
+    urlBody n (uri ++ ')' :: X) = uri := by
+  intro uri
+  induction uri with
+  | nil =>
+    intro X n _ hn
+    obtain ⟨n', rfl⟩ : ∃ n', n = n' + 1 := ⟨n - 1, by simp at hn; omega⟩
+    simp [urlBody]
+  | cons c u ih =>
+    intro X n h hn
+    obtain ⟨n', rfl⟩ : ∃ n', n = n' + 1 := ⟨n - 1, by simp at hn; omega⟩
+    simp only [isURLUnquoted, List.all_cons, Bool.and_eq_true] at h
+    obtain ⟨f1, f2, _, f4⟩ := urlChar_facts c h.1
+    simp only [List.cons_append, urlBody, f1, f2, f4, Bool.or_self, Bool.false_eq_true, if_false]
+    rw [ih X n' h.2 (by simp only [List.length_cons] at hn; omega)]
+
+theorem head_not_ws_plain (uri X : List Char) (h : isURLUnquoted uri = true) : wsRun (uri ++ ')' :: X) = 0 := by
+  cases uri with
+  | nil => simp [wsRun, isWs]
+  | cons c u =>
+    simp only [isURLUnquoted, List.all_cons, Bool.and_eq_true] at h
+    obtain ⟨_, f2, _, _⟩ := urlChar_facts c h.1
+    simp [wsRun, f2]
+
+theorem head_not_quote_plain (uri X : List Char) (h : isURLUnquoted uri = true) :
+    isQuote ((uri ++ ')' :: X).headD ' ') = false := by
+  cases uri with
+  | nil => simp [isQuote]
+  | cons c u =>
+    simp only [isURLUnquoted, List.all_cons, Bool.and_eq_true] at h
+    obtain ⟨_, _, f3, _⟩ := urlChar_facts c h.1
+    simp only [Bool.or_eq_false_iff] at f3
+    simp [isQuote, f3.1.1.1, f3.1.1.2]
+
+/-- **css_url_closed** — for every byte string `uri` that passes the unquoting test of `minifyTokens`
+    (`css.IsURLUnquoted` restricted to bytes without backslash: no quotes, parentheses, backslash, space, control
+    characters or DEL), `url(` `uri` `)` is one closed url token for the independent tokeniser (`lexOk`), whose value
+    (CSS Syntax 3 §4.3.6) is exactly `uri`: unquoting cannot open a bad-url and keeps the url.  Urls that keep their
+    quotes are `url(` string `)` with the string lexeme unchanged (`reads_url`, `urlOk`); `data:` URIs are C18. -/
+theorem css_url_closed (uri : List Char) (h : isURLUnquoted uri = true) :
+    lexOk .url (S "url(" ++ uri ++ [')']) = true ∧ urlValue (S "url(" ++ uri ++ [')']) = uri := by
+  have e : S "url(" ++ uri ++ [')'] = 'u' :: 'r' :: 'l' :: '(' :: (uri ++ [')']) := by simp [S]
+  have hname : ∀ (n : Nat) (Y : List Char), nameLen (n + 4) ('u' :: 'r' :: 'l' :: '(' :: Y) = 3 := by
+    intro n Y; simp [nameLen, isName, isNameStart, isDigit, validEsc]
+  constructor
+  · simp only [lexOk, Bool.and_eq_true, Bool.not_eq_true', beq_iff_eq]
+    refine ⟨by rw [e]; rfl, ?_⟩
+    rw [e]
+    have hlen : ('u' :: 'r' :: 'l' :: '(' :: (uri ++ [')'])).length + 1 = (uri.length + 2) + 4 := by
+      simp only [List.length_cons, List.length_append, List.length_nil]
+    rw [hlen]
+    simp only [List.cons_append]
+    rw [next_nameStart _ _ _ (by decide)]
+    have e2 : uri ++ [')'] ++ [' '] = uri ++ ')' :: [' '] := by simp
+    simp only [identLike, hname, e2]
+    have hw := head_not_ws_plain uri [' '] h
+    have hq := head_not_quote_plain uri [' '] h
+    have hu := urlLen_plain uri [' '] (uri.length + 2 + 4) h (by omega)
+    have hne : (uri ++ ')' :: [' ']).isEmpty = false := by cases uri <;> rfl
+    have hq2 : isQuote (uri.head?.getD ')') = false := by
+      cases uri with
+      | nil => simp [isQuote]
+      | cons c u => simpa using hq
+    simp [isUrlName, unescape, lowerAscii, Verif.Spec.CssValue.lowerChar, urlRest, hw, hq2, hu, hne]
+    omega
+  · rw [e]
+    simp only [urlValue]
+    have hlen : ('u' :: 'r' :: 'l' :: '(' :: (uri ++ [')'])).length = (uri.length + 1) + 4 := by
+      simp only [List.length_cons, List.length_append, List.length_nil]
+    rw [hlen, hname]
+    have e3 : List.drop (3 + 1) ('u' :: 'r' :: 'l' :: '(' :: (uri ++ [')'])) = uri ++ ')' :: [] := by simp
+    rw [e3, head_not_ws_plain uri [] h]
+    simp only [List.drop_zero]
+    exact urlBody_plain uri [] _ h (by simp)
+
+example : isURLUnquoted (S "a/b.png?x=1#y") = true := by decide
+
+
 end Verif.Proofs.C09Css
